@@ -128,16 +128,20 @@ pub struct WakeCfg {
     pub overhang: bool,
     /// producers spin on the release flag so that their sender drops overlap
     pub tight_release: bool,
+    /// producer 0 also owns a clone of its sender and drops it after this many of its sends: when
+    /// it is the only producer its handle goes multi-writer -> sole writer in the middle of the run
+    pub ghost: Option<u32>,
 }
 
 impl WakeCfg {
     pub fn describe(&self) -> String {
         format!(
-            "wake {} cap={} wait={} P={} values={} streams(quotas)={:?} uni={:?} iter={} overhang={} policy={} plan=[{}]",
+            "wake {} cap={} wait={} P={} ghost-sender-dropped-after={:?} values={} streams(quotas)={:?} uni={:?} iter={} overhang={} policy={} plan=[{}]",
             self.fl.name(),
             self.cap,
             self.wait.name(),
             self.producers,
+            self.ghost,
             self.values,
             self.streams,
             self.uni,
@@ -153,6 +157,7 @@ impl WakeCfg {
         h.add(self.cap);
         h.add_str(&self.wait.name());
         h.add(self.producers as u64);
+        h.add(self.ghost.map(|g| g as u64 + 1).unwrap_or(0));
         for s in &self.streams {
             h.add(0xabc);
             for q in s {
@@ -260,6 +265,8 @@ pub fn gen_cfg(rng: &mut Rng, small: bool) -> WakeCfg {
             });
         }
     }
+    let ghost = if rng.chance(1, 3) { Some(rng.below(values as u64 + 1) as u32) } else { None };
+    let producers = if ghost.is_some() && rng.chance(2, 3) { 1 } else { 1 + rng.below(3) as u32 };
     WakeCfg {
         fl,
         cap,
@@ -267,7 +274,8 @@ pub fn gen_cfg(rng: &mut Rng, small: bool) -> WakeCfg {
         streams,
         uni,
         values,
-        producers: 1 + rng.below(3) as u32,
+        ghost,
+        producers,
         policy,
         plan,
         seed: rng.next(),
@@ -346,6 +354,7 @@ pub fn run_once(cfg: &WakeCfg, shard: &mut Shard) -> (u64, bool, bool) {
         let c = txs[0].clone_tx();
         txs.push(c);
     }
+    let mut ghost_tx = cfg.ghost.map(|g| (g, txs[0].clone_tx()));
     let shared = Arc::new(Shared {
         go: AtomicBool::new(false),
         release: AtomicBool::new(false),
@@ -438,6 +447,7 @@ pub fn run_once(cfg: &WakeCfg, shard: &mut Shard) -> (u64, bool, bool) {
         if extra > 0 {
             extra -= 1;
         }
+        let mut ghost = if pi == 0 { ghost_tx.take() } else { None };
         joins.push(
             std::thread::Builder::new()
                 .name(format!("wake-p{}", my))
@@ -453,6 +463,11 @@ pub fn run_once(cfg: &WakeCfg, shard: &mut Shard) -> (u64, bool, bool) {
                         if sh.release.load(SeqCst) {
                             break;
                         }
+                        if ghost.as_ref().map(|g| g.0 <= sent).unwrap_or(false) {
+                            if let Some((_, g)) = ghost.take() {
+                                g.drop_tx(false);
+                            }
+                        }
                         match tx.try_send(id) {
                             SendOut::Ok => {
                                 sent += 1;
@@ -467,6 +482,9 @@ pub fn run_once(cfg: &WakeCfg, shard: &mut Shard) -> (u64, bool, bool) {
                         }
                     }
                     let _ = tries;
+                    if let Some((_, g)) = ghost.take() {
+                        g.drop_tx(false);
+                    }
                     sh.producer_done[my as usize].store(true, SeqCst);
                     sh.producers_done.fetch_add(1, SeqCst);
                     // stay alive, idle, holding the sender
